@@ -256,7 +256,7 @@ type tctx struct {
 }
 
 func newTctx(ca int, certArg string, der []byte) (*tctx, string) {
-	c := &tctx{iss: pool()[ca], der: der}
+	c := &tctx{iss: entAt(ca), der: der}
 	if certArg != "n" {
 		c.cert = &x509.Certificate{SerialNumber: bigOf(certArg)}
 		c.ucert = &stdx509.Certificate{SerialNumber: bigOf(certArg)}
